@@ -103,6 +103,7 @@ T.GROUPS['lsq'] = [
     A([a_, w_, b_], z3.Implies(z3.And(rows(w_) == rows(a_), rows(b_) == rows(a_)),
                                mm(tr(dscale(w_, a_)), b_) == mm(tr(a_), dscale(w_, b_))), [mm(tr(dscale(w_, a_)), b_)]),
     A([a_, b_], had(a_, b_) == had(b_, a_), [had(a_, b_)]),
+    A([a_, ix_, n_], z3.Implies(nonneg(a_), nonneg(rowg(a_, ix_, n_))), [rowg(a_, ix_, n_)]),
 ]
 
 # ---- layout of the design matrix against the layout of the solution (both C order)
@@ -283,6 +284,7 @@ def method(ex, st, recv, name, args, kwargs, node):
     if name == 'copy' and isinstance(r, VArr) and _on(ex):
         used('ndarray.copy() -> same value, fresh buffer')
         c = VArr(r.shape, r.t, r.tag, r.dtype, r.note)
+        c.origin, c.copy_of = c, r            # provenance (contracts state "the result is built on a copy of the argument")
         return c
     if name == 'pop' and isinstance(r, VRec) and len(args) == 2 and isinstance(args[0], VStr) and args[0].concrete() is not None:
         used('dict.pop(key, default) -> removes the key if present')
@@ -297,23 +299,52 @@ M.method = method
 _orig_store = M.store
 
 
+def _is_slice_put(ex, st, b, sl_, val):
+    return _on(ex) and isinstance(b, VArr) and b.ndim == 3 and b.tag == 'core' and b.t is not None and isinstance(sl_, ast.Tuple) \
+        and len(sl_.elts) == 3 and _full(sl_.elts[0]) and _full(sl_.elts[2]) and not isinstance(sl_.elts[1], ast.Slice) and is_mat(val)
+
+
+def _slice_put(ex, st, b, sl_, val, node, name):
+    j = M.norm_index(ex, st, ex.need_num(st, ex.ev(sl_.elts[1], st), node), b.shape[1], node, 'mode-index')
+    used('G[:, j, :] = X on a core -> cputsl(G, j, X); requires X of shape (r1, r2)')
+    ex.oblige(st, 'call-pre', 'slice-assignment-shape-matches',
+              z3.And(Z(val.shape[0]) == Z(b.shape[0]), Z(val.shape[1]) == Z(b.shape[2])), node)
+    new = VArr(b.shape, cputsl(b.t, Z(j), val.t), 'core')
+    new.origin = getattr(b, 'origin', None)        # provenance (contracts state "the result is built on a copy of the argument")
+    st.ghost['slice_stores'] = st.ghost.get('slice_stores', []) + [dict(name=name, j=Z(j), old=b, X=val, new=new)]
+    return new
+
+
 def store(ex, st, base, sl_, v, node, base_node):
     b = st.deref(base)
     val = st.deref(v)
-    if isinstance(b, VArr) and b.ndim == 3 and b.tag == 'core' and b.t is not None and isinstance(sl_, ast.Tuple) and len(sl_.elts) == 3 \
-            and _full(sl_.elts[0]) and _full(sl_.elts[2]) and not isinstance(sl_.elts[1], ast.Slice) and is_mat(val) \
-            and isinstance(base_node, ast.Name) and _on(ex):
-        j = M.norm_index(ex, st, ex.need_num(st, ex.ev(sl_.elts[1], st), node), b.shape[1], node, 'mode-index')
-        used('G[:, j, :] = X on a core -> cputsl(G, j, X); requires X of shape (r1, r2)')
-        ex.oblige(st, 'call-pre', 'slice-assignment-shape-matches',
-                  z3.And(Z(val.shape[0]) == Z(b.shape[0]), Z(val.shape[1]) == Z(b.shape[2])), node)
-        st.vars[base_node.id] = VArr(b.shape, cputsl(b.t, Z(j), val.t), 'core')
-        st.ghost['slice_stores'] = st.ghost.get('slice_stores', []) + [dict(name=base_node.id, j=Z(j), old=b, X=val)]
+    if isinstance(base_node, ast.Name) and _is_slice_put(ex, st, b, sl_, val):
+        st.vars[base_node.id] = _slice_put(ex, st, b, sl_, val, node, base_node.id)
         return
     return _orig_store(ex, st, base, sl_, v, node, base_node)
 
 
 M.store = store
+
+
+class own_slice_writes:
+    """`with X.own_slice_writes():` around U.run - for gated executors BOTH `G[:, k, :] = X` and `G[:, k, :] += X` (which the
+    executor turns into `G[:, k, :] = sl(G, k) + X`) denote cputsl(G, k, .); other extension modules have their own symbol for
+    the augmented form, which would otherwise answer first."""
+    def __enter__(self):
+        self.prev = prev = M.arr_setitem
+
+        def arr_setitem(ex, st, b, sl_, v, node):
+            val = st.deref(v)
+            if _is_slice_put(ex, st, b, sl_, val):
+                return _slice_put(ex, st, b, sl_, val, node, None)
+            return prev(ex, st, b, sl_, v, node)
+        M.arr_setitem = arr_setitem
+        return self
+
+    def __exit__(self, *exc):
+        M.arr_setitem = self.prev
+        return False
 
 
 # ----------------------------------------------------------------------------------------------
